@@ -119,6 +119,24 @@ def evaluate(dep, program):
             probe("sim:remainder!=0")
         if c["n_tasks"] >= 1:
             v += check_tasks(c["tasks"], c["n_tasks"], c["start_idx"], c["arr"], "package-call")
+    # what crosses the pool seam is exactly what the partition produced (nothing dropped, added or reordered)
+    by_op = {}
+    for c in dep.batch_tasks_calls:
+        by_op.setdefault(c["op"], []).append(c)
+    for pl in dep.pools:
+        seen_per_op = {}
+        for m in getattr(pl, "map_calls", []):
+            calls = by_op.get(m["op"], [])
+            i = seen_per_op.get(m["op"], 0)
+            seen_per_op[m["op"]] = i + 1
+            if m.get("map") is None or m["map"] >= len(calls):
+                continue
+            c = calls[m["map"]]
+            want = [(tuple(t[0]) if isinstance(t[0], tuple) else [int(x) for x in t[0]]) for t in c["tasks"]]
+            got = [(tuple(t["rows"]) if t["kind"] == "range" else [int(x) for x in t["rows"]]) for t in m["tasks"]]
+            probe("seam_vs_partition_compared")
+            if want != got:
+                v.append(Violation(PROPERTY, "C16.seam", "C16:pool-seam:tasks-differ-from-the-partition-produced", "map %s: partition made %d batches %s, pool received %d %s" % (m["key"], len(want), want[:6], len(got), got[:6])))
     # coverage at op level: the likelihood map of an mll op covers exactly range(N) in order
     for rec in dep.history:
         op = rec["op"]
